@@ -15,6 +15,8 @@
 (***************************************************************************)
 EXTENDS Naturals, Sequences, FiniteSets, TLC, Json, SequencesExt
 
+F == INSTANCE ZstdFormat
+
 SeqCounts == {0, 1, 2, 127, 128, 129, 32511, 32512, 32513, 32767, 32768, 43690}
 CodeShapes == {"zero", "single", "two", "many"}       \* for literal lengths and match lengths ("zero" = only code 0)
 OffShapes == {"single", "two", "many"}
@@ -32,9 +34,59 @@ Classes == {c \in [n : SeqCounts, ll : CodeShapes, ml : CodeShapes, of : OffShap
 CountForm(n) == IF n = 0 THEN 0 ELSE IF n < 128 THEN 1 ELSE IF n < 32512 THEN 2 ELSE 3
 Covered == {CountForm(c.n) : c \in Classes} = {0, 1, 2, 3}
 
+\* ---------------------------------------------------------------------------------------------------
+\* Code histograms and the accuracy log the table builder picks (fse_encoder.rs, build_table_from_counts):
+\* counts are shifted down so that the smallest is 1, divided down when the largest exceeds the number of
+\* described symbols, and the accuracy log is  max(5, floor(log2(sum)) + 1)  CLAMPED to the field's limit
+\* (RFC 8878 3.1.1.3.2.1: literal lengths 9, offsets 8, match lengths 9).  The classes below are histograms
+\* "k codes used c times each (+ one code used once)", placed at the low or the high end of the codes a
+\* block can realise; for each the specification gives the unclamped and the chosen accuracy log.  They
+\* are chosen so that the clamp is reached for every field (ClampReached) -- there the compressor's output
+\* is only decodable because of the clamp.
+Fields == {"ll", "of", "ml"}
+MaxLog(f) == CASE f = "ll" -> 9 [] f = "of" -> 8 [] f = "ml" -> 9
+Usable(f) == CASE f = "ll" -> 0..28 [] f = "of" -> 2..17 [] f = "ml" -> 0..45        \* codes whose values fit a block / the history
+Ks(f) == CASE f = "ll" -> {2, 3, 5, 8, 12, 16, 20, 25, 28} [] f = "of" -> 2..15 [] f = "ml" -> {2, 3, 5, 8, 12, 16, 24, 32, 40, 45}
+Uses == {1, 2, 3, 5, 8, 16, 24, 31, 40, 64}
+SetMin(S) == CHOOSE m \in S : \A y \in S : m <= y
+SetMax(S) == CHOOSE m \in S : \A y \in S : m >= y
+\* counts per code 0..max used code
+HistOf(f, k, c, single, place) ==
+    LET lo == SetMin(Usable(f))  hi == SetMax(Usable(f))
+        n == k + (IF single THEN 1 ELSE 0)
+        first == IF place = "low" THEN lo ELSE hi - n + 1
+        one == IF place = "low" THEN first + k ELSE first          \* the code used once
+        many == IF place = "low" THEN first..(first + k - 1) ELSE (first + n - k)..hi
+    IN [i \in 1..(first + n) |-> IF (i - 1) \in many THEN c ELSE IF single /\ i - 1 = one THEN 1 ELSE 0]
+RECURSIVE SumSeq(_, _)
+SumSeq(h, i) == IF i > Len(h) THEN 0 ELSE h[i] + SumSeq(h, i + 1)
+ILog2(v) == F!HighBit(v)
+Max2(a, b) == IF a > b THEN a ELSE b
+Min2(a, b) == IF a < b THEN a ELSE b
+\* the builder always describes at least two symbols
+Described(h) == IF Len(h) < 2 THEN h \o <<0>> ELSE h
+Shifted(h) == LET m == SetMin({h[i] : i \in {j \in 1..Len(h) : h[j] > 0}}) IN [i \in 1..Len(h) |-> IF h[i] > 0 THEN h[i] - (m - 1) ELSE 0]
+Scaled(h) == LET mx == SetMax({h[i] : i \in 1..Len(h)})
+             IN IF mx > Len(h) THEN LET d == mx \div Len(h) IN [i \in 1..Len(h) |-> IF h[i] > 0 THEN Max2(h[i] \div d, 1) ELSE 0] ELSE h
+UnclampedLog(h) == Max2(5, ILog2(SumSeq(Scaled(Shifted(Described(h))), 1)) + 1)
+ChosenLog(f, h) == Min2(UnclampedLog(h), MaxLog(f))
+BytesNeeded(f, h) == IF f = "ll" THEN SumSeq([i \in 1..Len(h) |-> h[i] * (F!LLBase[i] + 3)], 1)
+                     ELSE IF f = "ml" THEN SumSeq([i \in 1..Len(h) |-> h[i] * (F!MLBase[i] + 1)], 1)
+                     ELSE 5 * SumSeq(h, 1)
+HistClasses == {[field |-> f, k |-> k, c |-> c, single |-> sg, place |-> pl,
+                 hist |-> HistOf(f, k, c, sg, pl), unclamped |-> UnclampedLog(HistOf(f, k, c, sg, pl)), al |-> ChosenLog(f, HistOf(f, k, c, sg, pl))]
+                : f \in Fields, k \in UNION {Ks(g) : g \in Fields}, c \in Uses, sg \in BOOLEAN, pl \in {"low", "high"}}
+HistFeasible(cl) == /\ cl.k \in Ks(cl.field)
+                    /\ cl.k + (IF cl.single THEN 1 ELSE 0) <= Cardinality(Usable(cl.field))
+                    /\ BytesNeeded(cl.field, cl.hist) <= 120000
+HistRows == {cl \in HistClasses : HistFeasible(cl)}
+ClampReached == \A f \in Fields : \E cl \in HistRows : cl.field = f /\ cl.unclamped > MaxLog(f)
+
 VARIABLE x
 Init == x = 0
 Next == /\ x = 0 /\ x' = 1 /\ Assert(Covered, "sequence count forms not covered")
+        /\ Assert(ClampReached, "no histogram class reaches the accuracy log clamp")
         /\ LET rows == SetToSeq(Classes) IN ndJsonSerialize("parse_classes.ndjson", rows) /\ PrintT(<<"classes", Len(rows)>>)
+        /\ LET rows == SetToSeq(HistRows) IN ndJsonSerialize("hist_classes.ndjson", rows) /\ PrintT(<<"histclasses", Len(rows)>>)
 Spec == Init /\ [][Next]_x
 =============================================================================
